@@ -123,7 +123,7 @@ def _summarize(c, rep):
             v = smt.discharge(pc, goal, want_smt2=(len(samples) < 1), all_backends=all_backends)
             solver_time += v.time
             by_backend[v.backend] = by_backend.get(v.backend, 0) + 1
-            if v.smt2 and len(samples) < 1 and v.status == 'unsat' and v.backend != 'trivial':
+            if v.smt2 and len(samples) < 1 and v.status == 'unsat' and v.backend != 'path-evaluation':
                 samples.append({'obligation': name, 'verdict': 'unsat', 'backend': v.backend,
                                 'smt2': v.smt2[:3000]})
             if v.status == 'sat':
@@ -513,6 +513,12 @@ def report(prop, mine, results, missing, seed, wall, args):
             'trusted_base': trusted,
             'functions_under_contract': functions,
             'smt_queries': vcs, 'by_backend': by_backend, 'solver_time_s': round(solver_time, 3),
+            'by_backend_legend': {
+                'path-evaluation': 'the clause evaluated to True on a path whose every symbolic decision was a case '
+                                   'split or an entailment decided by z3 during path exploration (typical for '
+                                   'full-domain enum proofs)',
+                'enumeration': 'finite obligation on real module constants / syntactic scan of the current source',
+            },
             'inlined_transparent_functions': sorted(inlined),
             'refuted': [{'obligation': r['obligation'], 'replay': r['replay'], 'reproduced_natively': r['replayed']}
                         for r in refuted],
